@@ -295,6 +295,8 @@ class UAIReader(object):
 
         elif self.network_type == "MARKOV":
             model = MarkovNetwork(self.edges)
+            # Variables that appear only in unary factors are not part of any edge.
+            model.add_nodes_from(var for var in self.variables if var not in model)
 
             factors = []
             for table in self.tables:
